@@ -54,6 +54,20 @@ def resolveLine (s : DSt) (rows : Nat) (md : Meta) (dec : String) (stored : Opti
       | none => false
     afterRead lo md dec good
 
+/-- `count` writes of the same batch in a row (table-capacity cases): how many succeeded, first and
+last offset handed out. -/
+def bulkWrite (k : Kind) (est : Int) (full : Bytes) : Nat → St → Nat → Option Nat → Option Nat →
+    St × Nat × Option Nat × Option Nat
+  | 0, st, n, first, last => (st, n, first, last)
+  | c + 1, st, n, first, last =>
+    match write st k est full with
+    | (st', .ok off _) => bulkWrite k est full c st' (n + 1) (first.orElse fun _ => some off) (some off)
+    | (st', _) => bulkWrite k est full c st' n first last
+
+def showOpt : Option Nat → String
+  | some n => toString n
+  | none => "-"
+
 def step (st : Option DSt) (ws : List String) : Option DSt × String :=
   match st, ws with
   | _, ["new", n] => match n.toNat? with
@@ -108,6 +122,15 @@ def step (st : Option DSt) (ws : List String) : Option DSt × String :=
       | some st' => let s' := { s with st := st' }; (some s', "ok " ++ hdr s')
       | none => (some s, "err " ++ hdr s)
     | none => (st, "bad-op")
+  | some s, ["bulk", c, est, full, count] =>
+    match est.toInt?, parseHexArg full, count.toNat? with
+    | some e, some fb, some cnt =>
+      let (st', n, first, last) := bulkWrite (kindOf (parseCols c)) e fb cnt s.st 0 none none
+      let s' := { s with st := st' }
+      (some s', s!"bulk ok={n} first={showOpt first} last={showOpt last} slots={st'.seg.table.length} h={fnv (encodeHeader st'.seg)}")
+    | _, _, _ => (st, "bad-op")
+  -- every batch still allocated reads back as stored (theorem live_regions_read_back): their number
+  | some s, ["verify"] => (some s, s!"live={s.st.live.length}")
   | some s, ["reset"] => let s' := { s with st := resetAll s.st }; (some s', "ok " ++ hdr s')
   | some s, ["poke", o, h] => match o.toNat?, parseHexArg h with
     | some off, some b =>
